@@ -29,6 +29,7 @@ QSW = r"<impl server::QueryServerWriteTransaction<'_>>"
 ERR_PRESERVING = ("core::result::Result::<T, E>::map_err", "core::result::Result::<T, E>::inspect_err",
                   "core::result::Result::<T, E>::map", "core::result::Result::<T, E>::inspect",
                   "core::result::Result::<T, E>::and_then")
+AND_THEN = "core::result::Result::<T, E>::and_then"
 NEVER = ("core::panicking::panic", "core::panicking::panic_fmt", "std::rt::begin_panic",
          "core::panicking::unreachable_display", "std::process::exit", "core::panicking::panic_display",
          "core::panicking::panic_explicit")
@@ -141,7 +142,7 @@ class Flow:
 
     def _contains_events(self, fn_name, depth, seen):
         """True when the body of fn_name contains an event call, directly or through helpers (bounded)."""
-        key = fn_name
+        key = (fn_name, depth)
         if key in self._relevant:
             return self._relevant[key]
         if fn_name in seen or fn_name in self.no_inline:
@@ -444,7 +445,7 @@ class Flow:
             out = St(out.must & s.must, out.may)     # 0 iterations possible only via break in iteration 1: keep conservative
         return out, PLAIN
 
-    def _closure(self, e, s, fr):
+    def _closure(self, e, s, fr, want_exits=False):
         """A closure literal: its body runs conditionally, not before this point. Returns inside it are local."""
         sub = _Frame(fr.fn, fr.chain, fr.closure_depth + 1)
         sub.env = dict(fr.env)
@@ -454,7 +455,10 @@ class Flow:
         for x in sub.exits:
             may |= x.st.may
         # sites inside were recorded with their own states; here only `may` grows
-        return St(s.must, may)
+        out = St(s.must, may)
+        if want_exits:
+            return out, sub.exits
+        return out
 
     def _args(self, args, s, fr):
         vals = []
@@ -495,10 +499,20 @@ class Flow:
 
     def _mcall(self, e, s, fr):
         s, rv = self._ev(e["recv"], s, fr)
+        c = callee_of(e)
+        if s is not None and (c == AND_THEN or e.get("callee") == AND_THEN) and len(e.get("args", [])) == 1 \
+                and unwrap(e["args"][0]).get("e") == "closure" and not rv.has_ok_state:
+            # `a.and_then(|_| b)`: Ok only if a was Ok, the closure ran and returned Ok
+            s2, cexits = self._closure(unwrap(e["args"][0]), s, fr, want_exits=True)
+            succ = [x for x in cexits if x.kind != "err"]
+            gained = None
+            for x in succ:
+                g = x.st.must - s.must
+                gained = g if gained is None else (gained & g)
+            return s2, Val(rv.carries | (gained or frozenset()), "err" if rv.ok == "err" else None, sites=rv.sites)
         s, vals = self._args(e.get("args", []), s, fr)
         if s is None:
             return None, PLAIN
-        c = callee_of(e)
         if any(c == a or e.get("callee") == a for a in ERR_PRESERVING):
             if rv.has_ok_state:
                 return s, rv
@@ -671,7 +685,7 @@ class Pipelines:
                 trait_m = (node.get("callee") or "")[len(TRAIT_PREFIX):]
                 res = node.get("resolved") or ""
                 m = HOOK_RX.match(res)
-                plugin = m.group(1) if m else self._plugin_from_rows(n, node)
+                plugin = m.group(1) if m else self._plugin_from_rows(st.fn, node)
                 own = bool(m) and m.group(2) == trait_m and trait_m in self.impls.get(plugin, set())
                 # propagated: on every success exit the event is in must
                 prop = bool(succ) and all(st.ev in x.st.must for x in succ)
@@ -769,9 +783,11 @@ class Pipelines:
                        file=d["file"] if d else None, line=d["line"] if d else None)
         return ok
 
-    def siblings_agree(self, rule, run_a, run_b, why):
-        a = [e.plugin for e in self.reg.get(run_a, []) if e.own]
-        b = [e.plugin for e in self.reg.get(run_b, []) if e.own]
+    def siblings_agree(self, rule, run_a, run_b, why, plugins=None):
+        """The two registries list the same plugins in the same order (projected on `plugins` when given, so that a
+        property only answers for the plugins it depends on)."""
+        a = [e.plugin for e in self.reg.get(run_a, []) if e.own and (plugins is None or e.plugin in plugins)]
+        b = [e.plugin for e in self.reg.get(run_b, []) if e.own and (plugins is None or e.plugin in plugins)]
         d = self.reg_rec.get(run_b)
         ok = bool(a) and a == b
         det = ""
@@ -781,7 +797,8 @@ class Pipelines:
             det = (f"Plugins::{run_a} and Plugins::{run_b} must list the same plugins in the same order; "
                    f"only in {run_a}: {only_a}, only in {run_b}: {only_b}"
                    + ("" if only_a or only_b else f"; order differs: {a} vs {b}") + f" — {why}")
-        self.ctx.check(ok, rule, self.fn_of(run_b), f"siblings:{run_a}={run_b}", f"{run_a} and {run_b} agree ({len(a)} plugins)", det,
+        scope = "" if plugins is None else ":" + "+".join(sorted(plugins))
+        self.ctx.check(ok, rule, self.fn_of(run_b), f"siblings:{run_a}={run_b}{scope}", f"{run_a} and {run_b} agree ({len(a)} plugins)", det,
                        file=d["file"] if d else None, line=d["line"] if d else None)
         return ok
 
